@@ -5,6 +5,7 @@ V="$(cd "$(dirname "${BASH_SOURCE[0]}")/.." && pwd)"
 cd "$V/spec/overrides" && javac -cp /opt/veriftools/tla/tla2tools.jar HsOverrides.java
 cd "$V/harness" && [ -f Cargo.lock ] || cp /repo/Cargo.lock Cargo.lock
 cd "$V/harness" && CARGO_NET_OFFLINE=true cargo build --release --offline 2>&1 | tail -3
+(cd "$V/harness" && RUSTFLAGS="-Zsanitizer=address --cfg libhaystack_verif --check-cfg cfg(libhaystack_verif) --cfg hs_asan --check-cfg cfg(hs_asan)" CARGO_NET_OFFLINE=true cargo +nightly build --release --offline --target x86_64-unknown-linux-gnu --target-dir target-asan 2>&1 | tail -2)
 python3 "$V/tools/units2tla.py" /repo/unit-gen/units.txt "$V/spec/UnitsDb.tla"
 cd "$V/spec" && for f in *.tla; do tla-sany "$f" > /dev/null 2>&1 || { echo "SANY failed on $f"; tla-sany "$f" | tail -20; exit 1; }; done
 mkdir -p "$V/out" "$V/evidence"
